@@ -14,7 +14,7 @@
 From Coq Require Import PrimFloat.
 From Coq Require Import ZArith List Bool Reals Lra Permutation.
 From Coquelicot Require Import Coquelicot.
-From BZ Require Import Base.Ops Gen.Point Gen.Affine Gen.Line Gen.Quad Gen.Cubic Hand.Shoelace Proofs.C10.
+From BZ Require Import Base.Ops Gen.Point Gen.Affine Gen.Line Gen.Quad Gen.Cubic Hand.Shoelace Proofs.C10 Proofs.C10pos Proofs.C10shapes Hand.Shapes.
 Import ListNotations.
 Open Scope R_scope.
 
@@ -90,6 +90,87 @@ Proof. exact triangle_signed_area. Qed.
 Theorem C10_open_chain_differs :
   signed_area_lines ROps [L2 (P 1 1) (P 2 2)] <> - sum_line_areas [L2 (P 1 1) (P 2 2)].
 Proof. exact open_chain_differs. Qed.
+Theorem C10_edges_of_closed :
+  forall (poly : list (pt R)), closed_chain (edges_of poly).
+Proof. exact edges_of_closed. Qed.
+Theorem C10_signed_area_about :
+  forall (c : pt R) (ls : list (seg2 R)), closed_chain ls -> signed_area_lines ROps ls = cross_sum_about c ls / 2.
+Proof. exact signed_area_about. Qed.
+Theorem C10_fan_decomposition :
+  forall (v0 : pt R) (vs : list (pt R)), signed_area_lines ROps (edges_of (v0 :: vs)) = fan_sum v0 vs / 2.
+Proof. exact fan_decomposition. Qed.
+Theorem C10_star_ccw_positive :
+  forall (c : pt R) (ls : list (seg2 R)), closed_chain ls -> star_ccw c ls -> 0 < signed_area_lines ROps ls.
+Proof. exact star_ccw_positive. Qed.
+Theorem C10_star_cw_negative :
+  forall (c : pt R) (ls : list (seg2 R)), closed_chain ls -> star_cw c ls -> signed_area_lines ROps ls < 0.
+Proof. exact star_cw_negative. Qed.
+Theorem C10_fan_ccw_positive :
+  forall (v0 : pt R) (vs : list (pt R)), fan_ccw v0 vs -> 0 < signed_area_lines ROps (edges_of (v0 :: vs)).
+Proof. exact fan_ccw_positive. Qed.
+Theorem C10_convex_ccw_positive :
+  forall (poly : list (pt R)), convex_ccw poly -> 0 < signed_area_lines ROps (edges_of poly).
+Proof. exact convex_ccw_positive. Qed.
+Theorem C10_convex_cw_negative :
+  forall (poly : list (pt R)), convex_cw poly -> signed_area_lines ROps (edges_of poly) < 0.
+Proof. exact convex_cw_negative. Qed.
+Theorem C10_ear_ccw_closed_positive :
+  forall (ls : list (seg2 R)), ear_ccw ls -> closed_chain ls /\ 0 < signed_area_lines ROps ls.
+Proof. exact ear_ccw_closed_positive. Qed.
+Theorem C10_ear_cw_closed_negative :
+  forall (ls : list (seg2 R)), ear_cw ls -> closed_chain ls /\ signed_area_lines ROps ls < 0.
+Proof. exact ear_cw_closed_negative. Qed.
+Theorem C10_star_ccw_direction :
+  forall (c : pt R) (ls : list (seg2 R)), closed_chain ls -> star_ccw c ls -> direction_lines ROps ls = 1.
+Proof. exact star_ccw_direction. Qed.
+Theorem C10_star_cw_direction :
+  forall (c : pt R) (ls : list (seg2 R)), closed_chain ls -> star_cw c ls -> direction_lines ROps ls = -1.
+Proof. exact star_cw_direction. Qed.
+Theorem C10_Rectangle_star_cw :
+  forall (w h : R) (o : pt R), 0 < w -> 0 < h -> star_cw_strict o (Rectangle_lines ROps w h o).
+Proof. exact Rectangle_star_cw. Qed.
+Theorem C10_Rectangle_negative :
+  forall (w h : R) (o : pt R), 0 < w -> 0 < h -> signed_area_lines ROps (Rectangle_lines ROps w h o) < 0 /\ direction_lines ROps (Rectangle_lines ROps w h o) = -1.
+Proof. exact Rectangle_negative. Qed.
+Theorem C10_tri_positive :
+  0 < signed_area_lines ROps triangle /\ direction_lines ROps triangle = 1.
+Proof. exact tri_positive. Qed.
+Theorem C10_ell_positive :
+  signed_area_lines ROps (edges_of ell_pts) = 3.
+Proof. exact ell_positive. Qed.
+Theorem C10_Ellipse_sum_cubic_areas :
+  forall (xr yr : R) (o : pt R) (s : R), sum_cubic_areas (Ellipse_cubics ROps xr yr o s) = ellipse_K s * xr * yr.
+Proof. exact Ellipse_sum_cubic_areas. Qed.
+Theorem C10_Ellipse_green_area :
+  forall (xr yr : R) (o : pt R) (s : R), green_area_cubics (Ellipse_cubics ROps xr yr o s) = - (ellipse_K s * xr * yr).
+Proof. exact Ellipse_green_area. Qed.
+Theorem C10_Circle_green_area :
+  forall (r : R) (o : pt R) (s : R), green_area_cubics (Circle_cubics ROps r o s) = - (ellipse_K s * (r * r)).
+Proof. exact Circle_green_area. Qed.
+Theorem C10_Ellipse_green_negative :
+  forall (xr yr : R) (o : pt R) (s : R), 0 < xr * yr -> 0 < ellipse_K s -> green_area_cubics (Ellipse_cubics ROps xr yr o s) < 0.
+Proof. exact Ellipse_green_negative. Qed.
+Theorem C10_ellipse_K_circular_bounds :
+  31424 / 10000 < ellipse_K (circular_superness ROps) < 31425 / 10000.
+Proof. exact ellipse_K_circular_bounds. Qed.
+Theorem C10_Ellipse_default_negative :
+  forall (xr yr : R) (o : option (pt R)), 0 < xr * yr -> green_area_cubics (Ellipse_cubics_opt ROps xr yr o None) < 0.
+Proof. exact Ellipse_default_negative. Qed.
+Theorem C10_Circle_default_negative :
+  forall (r : R) (o : option (pt R)), r <> 0 -> green_area_cubics (Circle_cubics_opt ROps r o None) < 0.
+Proof. exact Circle_default_negative. Qed.
+Theorem C10_Ellipse_control_polygon_area :
+  forall (xr yr : R) (o : pt R) (s : R), signed_area_lines ROps (edges_of (Ellipse_control_polygon xr yr o s)) = - (2 * (1 + 2 * s - s * s) * xr * yr).
+Proof. exact Ellipse_control_polygon_area. Qed.
+Theorem C10_Ellipse_control_polygon_star_cw :
+  forall (xr yr : R) (o : pt R) (s : R), 0 < xr -> 0 < yr -> 0 < s <= 1 -> star_cw o (edges_of (Ellipse_control_polygon xr yr o s)).
+Proof. exact Ellipse_control_polygon_star_cw. Qed.
+Theorem C10_Square_signed_area :
+  forall (w : R) (o : pt R), signed_area_lines ROps (Square_lines ROps w o) = - (w * w).
+Proof. exact Square_signed_area. Qed.
+Theorem C10_Ellipse_cubics_closed :
+  forall (T : Type) (O : Ops T) (xr yr : T) (o : pt T) (s : T), closed_cubic_chain (Ellipse_cubics O xr yr o s).
+Proof. exact @Ellipse_cubics_closed. Qed.
 
 Print Assumptions C10_area_is_integral_line.
 Print Assumptions C10_area_is_integral_quad.
@@ -115,3 +196,30 @@ Print Assumptions C10_Rectangle_lines_chain.
 Print Assumptions C10_triangle_closed.
 Print Assumptions C10_triangle_signed_area.
 Print Assumptions C10_open_chain_differs.
+Print Assumptions C10_edges_of_closed.
+Print Assumptions C10_signed_area_about.
+Print Assumptions C10_fan_decomposition.
+Print Assumptions C10_star_ccw_positive.
+Print Assumptions C10_star_cw_negative.
+Print Assumptions C10_fan_ccw_positive.
+Print Assumptions C10_convex_ccw_positive.
+Print Assumptions C10_convex_cw_negative.
+Print Assumptions C10_ear_ccw_closed_positive.
+Print Assumptions C10_ear_cw_closed_negative.
+Print Assumptions C10_star_ccw_direction.
+Print Assumptions C10_star_cw_direction.
+Print Assumptions C10_Rectangle_star_cw.
+Print Assumptions C10_Rectangle_negative.
+Print Assumptions C10_tri_positive.
+Print Assumptions C10_ell_positive.
+Print Assumptions C10_Ellipse_sum_cubic_areas.
+Print Assumptions C10_Ellipse_green_area.
+Print Assumptions C10_Circle_green_area.
+Print Assumptions C10_Ellipse_green_negative.
+Print Assumptions C10_ellipse_K_circular_bounds.
+Print Assumptions C10_Ellipse_default_negative.
+Print Assumptions C10_Circle_default_negative.
+Print Assumptions C10_Ellipse_control_polygon_area.
+Print Assumptions C10_Ellipse_control_polygon_star_cw.
+Print Assumptions C10_Square_signed_area.
+Print Assumptions C10_Ellipse_cubics_closed.
